@@ -760,6 +760,43 @@ def build : Nat → PItem → Option M
             | _, [] => none) (some [.any])).map fun groups => unionOfList fuel groups.reverse
     | _ => none
 
+/-! ### the token list a rendered marker denotes
+
+`items m` is what packaging's marker parser produces from `str m` (atoms, `and`/`or`, a nested
+list per parenthesised group).  That `packaging` maps the text to exactly this list is outside
+the model and compared on every run (stream `C07.tokens`); `C07.reparse_sound` is about this list. -/
+
+/-- tokens of one rendered atom -/
+def atomItem (a : Atom) : PItem :=
+  if a.reversed then .atom false a.value a.op.reflect.str a.name
+  else .atom true a.name a.op.str a.value
+
+/-- `sep.join(parts)` on token lists -/
+def joinItems (sep : PItem) : List (List PItem) → List PItem
+  | [] => []
+  | [x] => x
+  | x :: rest => x ++ sep :: joinItems sep rest
+
+mutual
+def items : M → List PItem
+  | .any => []
+  | .empty => []
+  | .expr a => [atomItem a]
+  | .eqU n vs => joinItems .or_ (vs.map fun v => [.atom true n "==" v])
+  | .neM n vs => joinItems .and_ (vs.map fun v => [.atom true n "!=" v])
+  | .multi ms => joinItems .and_ (itemsMultiChildren ms)
+  | .union ms => joinItems .or_ (itemsList ms)
+def itemsMultiChildren : List M → List (List PItem)
+  | [] => []
+  | m :: ms =>
+    (match m with
+     | .expr _ | .multi _ => items m
+     | _ => [.group (items m)]) :: itemsMultiChildren ms
+def itemsList : List M → List (List PItem)
+  | [] => []
+  | m :: ms => items m :: itemsList ms
+end
+
 /-! ### evaluation -/
 
 /-- environment value: a string, or a set of strings (`extras`, `dependency_groups`, batch `extra`) -/
